@@ -777,6 +777,7 @@ where
     let loops_result: Result<(), RedoError> = async {
     {
         let mut seen: HashSet<RedoPathBuf> = HashSet::new();
+        let mut seen_ids: HashSet<i64> = HashSet::new();
         for i in target_order.iter().copied() {
             let t = targets[i].as_ref();
             if t.is_empty() {
@@ -811,6 +812,10 @@ where
                     .map_err(RedoError::opaque_error)?;
                 ptx.set_drop_behavior(DropBehavior::Commit);
                 let mut f = state::File::from_name(&mut ptx, t, true)?;
+                if !seen_ids.insert(f.id()) {
+                    // Another spelling of a file that is already being handled.
+                    continue;
+                }
                 let mut lock = ptx.state().new_lock(f.id().try_into().unwrap());
                 if ptx.state().env().unlocked {
                     lock.force_owned();
